@@ -43,25 +43,75 @@ PrintRows(mem, bpa, big, w, a, b) ==
          vals  |-> [k \in 1..(IF r < nrows THEN perrow ELSE n - (nrows - 1) * perrow) |->
                       ShownAt(mem, start + (r - 1) * 16 + (k - 1) * w, w, big)]]]
 
-\* replay a session: cmds is a sequence of [k, w, a, b, vals, out]; returns the index of the first
-\* print whose recorded output differs from the model (0 = all agree)
-RECURSIVE Replay(_, _, _, _, _)
-Replay(mem, bpa, big, cmds, i) ==
+(* interactive asm (main/naken_util.cpp assemble_code): `asm <org>` or `asm` (continue behind the   *)
+(* last block), source lines, an empty line.  A block is a sequence of items                         *)
+(*   [k |-> "data", w, vals]   .db / .dc16 / .dc32 v1, v2, ..   (bytes in the CPU's order)           *)
+(*   [k |-> "org", a]          .org a   (a in address units)                                         *)
+(*   [k |-> "res", cnt]         .resb cnt  (cnt bytes skipped, nothing written)                           *)
+(*   [k |-> "insn", cpu, imm]  the load-immediate instruction of LoadBytes                           *)
+(* st = [mem, pc (byte address), hi (highest byte address written by the block, -1 if none)].        *)
+(* Only the bytes the items denote change; the next block without an address starts at the unit      *)
+(* behind the highest byte written (org = -2, nothing said, when the block ends inside a unit).       *)
+LoadBytes(cpu, v) ==
+  CASE cpu = "msp430" -> <<53, 64, v % 256, v \div 256>>
+    [] cpu = "6502"   -> <<169, v % 256>>
+    [] cpu = "z80"    -> <<62, v % 256>>
+    [] cpu = "avr8"   -> <<v % 16, 224 + ((v \div 16) % 16)>>
+Max2(a, b) == IF a > b THEN a ELSE b
+RECURSIVE AsmItems(_, _, _, _)
+AsmItems(st, big, items, i) ==
+  IF i > Len(items) THEN st
+  ELSE LET it == items[i]
+           nx == CASE it.k = "org" -> [st EXCEPT !.pc = it.a]
+                   [] it.k = "res" -> [st EXCEPT !.pc = @ + it.cnt]
+                   [] it.k = "insn" -> LET bs == LoadBytes(it.cpu, it.imm) IN
+                        [mem |-> WriteAll(st.mem, st.pc, [j \in 1..Len(bs) |-> <<bs[j]>>], 1, FALSE),
+                         pc |-> st.pc + Len(bs), hi |-> Max2(st.hi, st.pc + Len(bs) - 1)]
+                   [] OTHER -> [mem |-> WriteAll(st.mem, st.pc, it.vals, it.w, big),
+                                pc |-> st.pc + it.w * Len(it.vals), hi |-> Max2(st.hi, st.pc + it.w * Len(it.vals) - 1)]
+       IN IF nx = nx THEN AsmItems(nx, big, items, i + 1) ELSE st
+\* items give .org in units; scale here
+ScaleItems(items, bpa) == [j \in 1..Len(items) |-> IF items[j].k = "org" THEN [items[j] EXCEPT !.a = @ * bpa] ELSE items[j]]
+\* s = [mem, org (unit address where `asm` without an argument continues)]
+AsmBlock(s, bpa, big, c) ==
+  LET o  == IF c.a >= 0 THEN c.a ELSE s.org
+      st == AsmItems([mem |-> s.mem, pc |-> o * bpa, hi |-> -1], big, ScaleItems(c.items, bpa), 1)
+  IN [mem |-> st.mem, org |-> IF st.hi < 0 THEN o ELSE IF (st.hi + 1) % bpa = 0 THEN (st.hi + 1) \div bpa ELSE -2]
+
+StepCmd(s, bpa, big, c) ==
+  CASE c.k = "write" -> [s EXCEPT !.mem = Write(s.mem, bpa, big, c.w, c.a, c.vals)]
+    [] c.k = "asm"   -> AsmBlock(s, bpa, big, c)
+    [] OTHER         -> s
+
+\* replay a session: cmds is a sequence of [k, w, a, b, vals, out] (asm: [k, a, items]); returns the index of
+\* the first print whose recorded output differs from the model (0 = all agree)
+RECURSIVE ReplayS(_, _, _, _, _)
+ReplayS(s, bpa, big, cmds, i) ==
   IF i > Len(cmds) THEN 0
   ELSE LET c == cmds[i] IN
-    IF c.k = "write" THEN
-       LET m == Write(mem, bpa, big, c.w, c.a, c.vals) IN IF m = m THEN Replay(m, bpa, big, cmds, i + 1) ELSE 0
-    ELSE IF c.out = PrintRows(mem, bpa, big, c.w, c.a, c.b) THEN Replay(mem, bpa, big, cmds, i + 1)
-    ELSE i
+    IF c.k = "print" THEN
+       IF c.out = PrintRows(s.mem, bpa, big, c.w, c.a, c.b) THEN ReplayS(s, bpa, big, cmds, i + 1) ELSE i
+    ELSE IF c.k = "asm" /\ c.a < 0 /\ s.org < 0 THEN 0            \* continues behind a block that ended inside a unit
+    ELSE LET n == StepCmd(s, bpa, big, c) IN IF n = n THEN ReplayS(n, bpa, big, cmds, i + 1) ELSE 0
+Replay(mem, bpa, big, cmds, i) == ReplayS([mem |-> mem, org |-> 0], bpa, big, cmds, i)
 
-RECURSIVE MemAfter(_, _, _, _, _)
-MemAfter(mem, bpa, big, cmds, i) ==
-  IF i > Len(cmds) THEN mem
-  ELSE IF cmds[i].k = "write" THEN MemAfter(Write(mem, bpa, big, cmds[i].w, cmds[i].a, cmds[i].vals), bpa, big, cmds, i + 1)
-  ELSE MemAfter(mem, bpa, big, cmds, i + 1)
+RECURSIVE StateAfter(_, _, _, _, _)
+StateAfter(s, bpa, big, cmds, i) ==
+  IF i > Len(cmds) THEN s
+  ELSE LET n == StepCmd(s, bpa, big, cmds[i]) IN IF n = n THEN StateAfter(n, bpa, big, cmds, i + 1) ELSE s
+MemAfter(mem, bpa, big, cmds, i) == StateAfter([mem |-> mem, org |-> 0], bpa, big, cmds, i).mem
 
 InitMem(cells) == [a \in {cells[i].a : i \in 1..Len(cells)} |-> cells[CHOOSE i \in 1..Len(cells) : cells[i].a = a].b]
-SessionOk(e) == Replay(InitMem(e.init), e.bpa, e.big, e.cmds, 1) = 0
+(* symbol names in addresses and ranges: e.syms is the symbol table of the loaded file, a sequence of         *)
+(* [name, a] with a in address units; a command names a symbol in sa (start / write address) or sb (range end) *)
+(* and the symbol stands for its address exactly as a number would.                                            *)
+SymVal(syms, nm) == syms[CHOOSE i \in 1..Len(syms) : syms[i].name = nm].a
+HasSym(c, f) == f \in DOMAIN c /\ c[f] # ""
+ResolveCmd(syms, c) ==
+  LET c1 == IF HasSym(c, "sa") THEN [c EXCEPT !.a = SymVal(syms, c.sa)] ELSE c
+  IN IF HasSym(c, "sb") THEN [c1 EXCEPT !.b = SymVal(syms, c.sb)] ELSE c1
+Res(e) == IF "syms" \in DOMAIN e THEN [i \in 1..Len(e.cmds) |-> ResolveCmd(e.syms, e.cmds[i])] ELSE e.cmds
+SessionOk(e) == Replay(InitMem(e.init), e.bpa, e.big, Res(e), 1) = 0
 -----------------------------------------------------------------------------
 (* "agrees with what the simulator then fetches": a load-immediate          *)
 (* instruction of the CPU (from its architecture manual) at the unit        *)
@@ -71,11 +121,6 @@ SessionOk(e) == Replay(InitMem(e.init), e.bpa, e.big, e.cmds, 1) = 0
 (*   6502    lda #imm8          a9 nn                                       *)
 (*   z80     ld a, n            3e nn                                       *)
 (*   avr8    ldi r16, K         1110 KKKK 0000 KKKK, low byte first         *)
-LoadBytes(cpu, v) ==
-  CASE cpu = "msp430" -> <<53, 64, v % 256, v \div 256>>
-    [] cpu = "6502"   -> <<169, v % 256>>
-    [] cpu = "z80"    -> <<62, v % 256>>
-    [] cpu = "avr8"   -> <<v % 16, 224 + ((v \div 16) % 16)>>
 IsLoadAt(cpu, mem, x) ==
   CASE cpu = "msp430" -> Rd(mem, x) = 53 /\ Rd(mem, x + 1) = 64
     [] cpu = "6502"   -> Rd(mem, x) = 169
@@ -87,8 +132,8 @@ ImmAt(cpu, mem, x) ==
     [] cpu = "z80"    -> Rd(mem, x + 1)
     [] cpu = "avr8"   -> ((Rd(mem, x + 1) % 16) * 16) + (Rd(mem, x) % 16)
 \* e = [cpu, bpa, big, init, cmds (writes), pc (unit address), reg (value the register shows after one step)]
-FetchOk(e) == LET mem == MemAfter(InitMem(e.init), e.bpa, e.big, e.cmds, 1) IN
+FetchOk(e) == LET mem == MemAfter(InitMem(e.init), e.bpa, e.big, Res(e), 1) IN
               IsLoadAt(e.cpu, mem, e.pc * e.bpa) => e.reg = ImmAt(e.cpu, mem, e.pc * e.bpa)
-FetchExpect(e) == ImmAt(e.cpu, MemAfter(InitMem(e.init), e.bpa, e.big, e.cmds, 1), e.pc * e.bpa)
+FetchExpect(e) == ImmAt(e.cpu, MemAfter(InitMem(e.init), e.bpa, e.big, Res(e), 1), e.pc * e.bpa)
 
 =============================================================================
